@@ -3,6 +3,7 @@ package props
 import (
 	"encoding/json"
 	"fmt"
+	"regexp"
 	"sort"
 	"strings"
 	"testing"
@@ -32,6 +33,8 @@ type c07Case struct {
 	// ordered later mentions of that type in the file: site ids; Judged marks
 	// mentions the property statement lists.
 	Successors map[string][]c07Succ `json:"once_per_file_successors"`
+	// a line reporting the code for several types (T{In: U{}}) has one list per further type
+	MoreSuccessors map[string][][]c07Succ `json:"once_per_file_successors_more,omitempty"`
 }
 
 type c07Comment struct {
@@ -71,8 +74,8 @@ func c07Evaluate(c c07Case) string {
 	if len(ra.Panics)+len(rb.Panics) > 0 {
 		return fmt.Sprintf("analyzer panicked: %v %v", ra.Panics, rb.Panics)
 	}
-	base := siteKeys(c.Base, ra.Diags, 0, nil, true)
-	got := siteKeys(c.With, rb.Diags, 0, nil, true)
+	base := keyCounts(siteKeys(c.Base, ra.Diags, 0, nil, true))
+	got := keyCounts(siteKeys(c.With, rb.Diags, 0, nil, true))
 	// where is each tagged site in the commented program?
 	where := map[int][2]interface{}{}
 	for file, src := range c.With {
@@ -97,84 +100,127 @@ func c07Evaluate(c c07Case) string {
 		}
 		return false
 	}
-	want := map[string]bool{}
-	allowedExtra := map[string]bool{}
+	want := map[string]int{}
+	open := map[string]bool{}
 	var groups [][]string // exactly one of each group
 	var atMostOne [][]string
-	for k := range base {
+	succKey := func(k string, n int) string {
+		if n > 1 {
+			return fmt.Sprintf("%s (x%d)", k, n)
+		}
+		return k
+	}
+	for k, n := range base {
 		var site int
 		var code string
 		if _, err := fmt.Sscanf(k, "s%d %s", &site, &code); err != nil {
-			want[k] = true // untagged line: must stay
+			want[k] = n // untagged line: must stay
 			continue
 		}
 		if !suppressed(site, code) {
-			want[k] = true
+			want[k] = n
 			continue
 		}
-		// suppressed. once-per-file codes move to the next unsuppressed use.
+		// suppressed. once-per-file codes move to the next unsuppressed use (one list per reported type).
 		if code == "TONL01" || code == "PKGO01" {
-			var grp []string
-			judgedFound := false
-			for _, s := range c.Successors[k] {
-				if suppressed(s.Site, code) {
-					continue
+			sk := succKey(k, n)
+			for _, list := range append([][]c07Succ{c.Successors[sk]}, c.MoreSuccessors[sk]...) {
+				var grp []string
+				judgedFound := false
+				for _, s := range list {
+					if suppressed(s.Site, code) {
+						continue
+					}
+					grp = append(grp, fmt.Sprintf("s%d %s", s.Site, code))
+					if s.Judged {
+						judgedFound = true
+						break
+					}
 				}
-				grp = append(grp, fmt.Sprintf("s%d %s", s.Site, code))
-				if s.Judged {
-					judgedFound = true
-					break
+				if judgedFound {
+					groups = append(groups, grp)
+				} else if len(grp) > 0 {
+					atMostOne = append(atMostOne, grp)
 				}
-			}
-			for _, g := range grp {
-				allowedExtra[g] = true
-			}
-			if judgedFound {
-				groups = append(groups, grp)
-			} else if len(grp) > 0 {
-				atMostOne = append(atMostOne, grp)
 			}
 		}
 	}
+	// the moved reports may land on lines that already carry the code for
+	// another type, so the attribution is searched (proggen.Feasible)
+	for _, g := range atMostOne {
+		for _, k := range g {
+			open[k] = true
+		}
+	}
+	if proggen.Feasible(got, want, open, groups) {
+		for _, g := range atMostOne {
+			n, w := 0, 0
+			for _, k := range g {
+				n += got[k]
+				w += want[k]
+			}
+			if n > w+len(atMostOne) {
+				return fmt.Sprintf("once-per-file report duplicated among %v", g)
+			}
+		}
+		return ""
+	}
 	var probs []string
-	for k := range want {
-		if !got[k] {
+	inGroup := map[string]bool{}
+	for _, g := range groups {
+		n, w := 0, 0
+		for _, k := range g {
+			inGroup[k] = true
+			n += got[k]
+			w += want[k]
+		}
+		if n-w != 1 {
+			probs = append(probs, fmt.Sprintf("once-per-file report should move to the next unsuppressed use %v: reported %d times", g, n-w))
+		}
+	}
+	for k, w := range want {
+		if got[k] < w {
 			probs = append(probs, "lost (not matched by the comment or outside its scope): "+k)
 		}
 	}
-	for k := range got {
-		if !want[k] && !allowedExtra[k] {
-			if base[k] {
+	for k, n := range got {
+		if n > want[k] && !open[k] && !inGroup[k] {
+			if base[k] >= n {
 				probs = append(probs, "not suppressed although in scope and matched: "+k)
 			} else {
 				probs = append(probs, "new diagnostic appeared: "+k)
 			}
 		}
 	}
-	for _, g := range groups {
-		n := 0
-		for _, k := range g {
-			if got[k] {
-				n++
+	if len(probs) == 0 {
+		var diff []string
+		for k, n := range got {
+			if n != want[k] {
+				diff = append(diff, fmt.Sprintf("%s got=%d kept=%d", k, n, want[k]))
 			}
 		}
-		if n != 1 {
-			probs = append(probs, fmt.Sprintf("once-per-file report should move to the next unsuppressed use %v: reported %d times", g, n))
-		}
-	}
-	for _, g := range atMostOne {
-		n := 0
-		for _, k := range g {
-			if got[k] {
-				n++
-			}
-		}
-		if n > 1 {
-			probs = append(probs, fmt.Sprintf("once-per-file report duplicated among %v", g))
-		}
+		sort.Strings(diff)
+		probs = append(probs, fmt.Sprintf("new diagnostic appeared or report lost: moved once-per-file reports cannot be attributed: %v with groups %v open %v", diff, groups, atMostOne))
 	}
 	sort.Strings(probs)
 	return strings.Join(probs, "; ")
+}
+
+var xnRe = regexp.MustCompile(`^(.*) \(x(\d+)\)$`)
+
+// keyCounts turns the "key (xN)" spelling of siteKeys into counts.
+func keyCounts(m map[string]bool) map[string]int {
+	out := map[string]int{}
+	for k := range m {
+		if mm := xnRe.FindStringSubmatch(k); mm != nil {
+			n := 0
+			fmt.Sscanf(mm[2], "%d", &n)
+			out[mm[1]] = n
+		} else {
+			out[k] = 1
+		}
+	}
+	return out
 }
 
 func init() {
@@ -393,15 +439,22 @@ func TestC07(t *testing.T) {
 		rel, class := inserted[0].rel, inserted[0].class
 		// successors for once-per-file codes
 		succ := map[string][]c07Succ{}
+		succMore := map[string][][]c07Succ{}
 		for k := range baseKeys {
 			var site int
 			var code string
 			if _, err := fmt.Sscanf(k, "s%d %s", &site, &code); err != nil || (code != "TONL01" && code != "PKGO01") {
 				continue
 			}
-			succ[k] = c07Successors(p, site, code, base.Diags, srcA)
+			lists := c07Successors(p, site, code, base.Diags, srcA)
+			if len(lists) > 0 {
+				succ[k] = lists[0]
+			}
+			if len(lists) > 1 {
+				succMore[k] = lists[1:]
+			}
 		}
-		c := c07Case{Pkgs: pkgDirs(p), Base: srcA, With: srcB, File: fileKey, Lo: lo, Hi: hi, Tokens: tokens, Comment: comment, Place: place, Successors: succ, More: scopes[1:]}
+		c := c07Case{Pkgs: pkgDirs(p), Base: srcA, With: srcB, File: fileKey, Lo: lo, Hi: hi, Tokens: tokens, Comment: comment, Place: place, Successors: succ, MoreSuccessors: succMore, More: scopes[1:]}
 		after := loadOrBug(rt, id, p, cfg)
 		_ = after
 		ev.Eval(id)
@@ -456,48 +509,87 @@ func TestC07(t *testing.T) {
 
 // c07Successors lists the later mentions (in source order) of the type whose
 // once-per-file diagnostic sits at site, for the re-reporting rule.
-func c07Successors(p *proggen.Prog, site int, code string, diags []engine.Diag, src map[string]string) []c07Succ {
-	// type name from the message of the diagnostic at that site
-	name := ""
-	tl := p.TagLines()
-	_ = tl
+func c07Successors(p *proggen.Prog, site int, code string, diags []engine.Diag, src map[string]string) [][]c07Succ {
+	// type names from the messages of the diagnostics at that site
+	var names []string
+	nreported := 0
 	for _, d := range diags {
 		if d.Code != code {
 			continue
 		}
 		lines := strings.Split(src[d.File], "\n")
-		if d.Line >= 1 && d.Line <= len(lines) {
-			if proggen.TagAtCol(lines, d.Line, d.Col) == site {
-				if mm := tonl01Re.FindStringSubmatch(d.Message); mm != nil {
-					name = mm[1]
-				} else if mm := pkgo01Re.FindStringSubmatch(d.Message); mm != nil {
-					name = mm[1]
-				}
+		if d.Line >= 1 && d.Line <= len(lines) && proggen.TagAtCol(lines, d.Line, d.Col) == site {
+			nreported++
+			n := ""
+			if mm := tonl01Re.FindStringSubmatch(d.Message); mm != nil {
+				n = mm[1]
+			} else if mm := pkgo01Re.FindStringSubmatch(d.Message); mm != nil {
+				n = mm[1]
+			}
+			dup := false
+			for _, o := range names {
+				dup = dup || o == n
+			}
+			if !dup {
+				names = append(names, n)
 			}
 		}
 	}
-	var target *proggen.TypeDecl
-	var tfile *proggen.File
+	// the annotated types mentioned at the site under one of those names (two
+	// types of different packages can share a name)
+	var targets []*proggen.TypeDecl
 	p.Walk(func(si proggen.SiteInfo) {
 		if si.Site.ID != site {
 			return
 		}
-		tfile = si.Ctx.File
 		for _, evn := range si.Site.Events() {
-			if evn.Cat == "MENTION" && evn.Type.Name == name {
-				if code == "TONL01" && !evn.Type.TestOnly {
+			if evn.Cat != "MENTION" {
+				continue
+			}
+			named := false
+			for _, n := range names {
+				named = named || n == evn.Type.Name
+			}
+			if !named || (code == "TONL01" && !evn.Type.TestOnly) || (code == "PKGO01" && evn.Type.PackageOnly == nil) {
+				continue
+			}
+			if code == "PKGO01" {
+				// the declaring package and the allowed packages are never reported
+				up, un := si.Ctx.File.SrcPkgPath(), si.Ctx.File.PkgName()
+				if evn.Type.Pkg.Path() == up || proggen.Allowed(evn.Type.PackageOnly, up, un) {
 					continue
 				}
-				if code == "PKGO01" && evn.Type.PackageOnly == nil {
-					continue
-				}
-				target = evn.Type
+			}
+			dup := false
+			for _, o := range targets {
+				dup = dup || o == evn.Type
+			}
+			if !dup {
+				targets = append(targets, evn.Type)
 			}
 		}
 	})
-	if target == nil {
-		return nil
+	var out [][]c07Succ
+	for _, tg := range targets {
+		l := c07SuccessorsOf(p, site, code, tg)
+		if len(targets) > nreported {
+			// same-named types on one line, not all of them reported: which one was is not observable
+			for i := range l {
+				l[i].Judged = false
+			}
+		}
+		out = append(out, l)
 	}
+	return out
+}
+
+func c07SuccessorsOf(p *proggen.Prog, site int, code string, target *proggen.TypeDecl) []c07Succ {
+	var tfile *proggen.File
+	p.Walk(func(si proggen.SiteInfo) {
+		if si.Site.ID == site {
+			tfile = si.Ctx.File
+		}
+	})
 	var out []c07Succ
 	passed := false
 	p.Walk(func(si proggen.SiteInfo) {
@@ -526,6 +618,9 @@ func c07Successors(p *proggen.Prog, site int, code string, diags []engine.Diag, 
 				case "recv":
 					judged = false
 				}
+			}
+			if evn.Elided && code == "PKGO01" {
+				judged = false // the type is not written there: open
 			}
 			out = append(out, c07Succ{Site: si.Site.ID, Judged: judged})
 			return
